@@ -62,7 +62,7 @@ def run(ctx) -> None:
             meta = json.loads(d.read_text())
         except Exception:
             continue
-        if meta.get("breaks_property") == prop and meta.get("valid_on_head", True) is not False:
+        if meta.get("breaks_property") == prop and meta.get("valid_on_head", True) is not False and not meta.get("known_undetected"):
             jobs.append(("seeded", d.parent.name, prop, root))
     if not jobs:
         return
